@@ -18,7 +18,8 @@ Catalogue == <<
    "TXTPP#tag A", "TXTPP#tag B", "TXTPP#tag AB",
    "-TXTPP#write q", "-TXTPP#write", "-", "-A", " r", "-TXTPP#run", "-TXTPP#temp bad.txtpp",
    "// TXTPP#temp t1", "// c", "//", "   d", "-TXTPP#", "TXTPP#runx", "-TXTPP#write  TXTPP#tag A", "TXTPP#include p4",
-   "// TXTPP#temp sub/t2", "TXTPP#include t1", "  TXTPP#tag A", "\t-TXTPP#write  q r ", "-TXTPP#temp p2" >>
+   "-TXTPP#temp sub/t2", "TXTPP#include t1", "  TXTPP#tag A", "\t-TXTPP#write  q r ", "-TXTPP#temp p2",
+   "TXTPP#include pm", "-TXTPP#run sh mx" >>
 NL == Len(Catalogue)
 
 VARIABLE src
